@@ -126,7 +126,7 @@ def operators(ctx) -> None:
         if 'compose' in ci.methods and ci.ref not in (f'{MEMBER}:Origin', f'{MEMBER}:Compound', 'forml.flow._suite.clean:Stateless'):
             targets.append(prog.func(f'{ci.ref}.compose'))
     ctx.floor('C03.compose-methods', len(targets), 10)
-    ntrain = nsub = nconn = 0
+    ntrain = nsub = nconn = nvoid = 0
     for fn in sorted(targets, key=lambda f: f.ref):
         it = roles.interpret(prog, fn)
         R = roles.Roles(it, {'features': Role(TRAIN, 'WHOLE'), 'labels': Role(LABEL, 'WHOLE')})
@@ -226,6 +226,41 @@ def operators(ctx) -> None:
                 else:
                     g2 = list(gs.values())[1]
                     ctx.fail('C03.T7', fn, f'the builder `{b}` is instantiated as {len(gs)} separate worker groups: the appliers of the train and apply paths must be forks of one group to share the trained state', g2.node, key=f'T7:{b}')
+        # T8: the flow API is functional - Segment.extend / Trunk.extend / Trunk.use / expand return a *new* object and leave
+        # the receiver alone, so a call whose result is dropped wires nothing; and a worker that is fed but whose output
+        # nobody receives (not subscribed to, not handed to an extension, not returned) computes into the void
+        for e in [e for e in events if e.kind in ('seg-extend', 'trunk-extend', 'trunk-use')]:
+            st = core.enclosing_stmt(e.node)
+            nvoid += 1
+            ctx.check(not (isinstance(st, ast.Expr) and st.value is e.node), 'C03.T8', fn, f'the result of {core.src(e.node)[:60]} is used (extend/use return a new segment/trunk, the receiver is not changed)', e.node, key=f'T8:discard:{e.kind}')
+        trained_ids = {id(e.data['worker']) for e in events if e.kind == 'train'}
+        returned_ids = set()
+        for val, _ in it.returned:
+            for v in (val.elts if isinstance(val, roles.VTuple) else [val]):
+                returned_ids.add(id(v))
+        consumed_results = set()
+        for ev in events:
+            if ev.kind in ('trunk-extend', 'trunk', 'trunk-use'):
+                consumed_results |= {id(v) for v in ev.data.get('args', {}).values()}
+            if ev.kind == 'seg-extend':
+                consumed_results |= {id(ev.data.get('seg')), id(ev.data.get('right'))}
+        for w in it.workers:
+            if id(w) in trained_ids or not R.worker_inputs(w):
+                continue
+            szout = w.group.szout if hasattr(w.group, 'szout') else None
+            if isinstance(szout, roles.VInt) and szout.var is None and szout.b == 0:
+                continue
+            consumed = any(ev.kind == 'subscribe' and isinstance(ev.data['pub'], roles.VPub) and ev.data['pub'].kind == 'port' and ev.data['pub'].ref.worker is w for ev in events)
+            live_ext = any(ev.kind == 'seg-extend' and (ev.data.get('tail') is w or ev.data.get('right') is w) and (id(ev.data['result']) in consumed_results or id(ev.data['result']) in returned_ids) for ev in events)
+            direct = any(ev.kind in ('trunk-extend', 'trunk', 'trunk-use') and any(v is w for v in ev.data.get('args', {}).values()) for ev in events)
+            other = any(ev.kind in ('self-call',) and (any(v is w for v in ev.data.get('args', [])) or any(v is w for v in ev.data.get('kwargs', {}).values())) for ev in events)
+            if not consumed:
+                # a subscriber outside the interpreter's vocabulary (a Future placeholder): any X.subscribe(<w>[i]) counts
+                wst = core.enclosing_stmt(w.node)
+                wname = wst.targets[0].id if isinstance(wst, ast.Assign) and len(wst.targets) == 1 and isinstance(wst.targets[0], ast.Name) else None
+                consumed = wname is not None and any(isinstance(c.func, ast.Attribute) and c.func.attr == 'subscribe' and c.args and isinstance(c.args[0], ast.Subscript) and isinstance(c.args[0].value, ast.Name) and c.args[0].value.id == wname for c in core.calls_in(fn.node))
+            nvoid += 1
+            ctx.check(consumed or live_ext or direct or other or id(w) in returned_ids, 'C03.T8', fn, f'{w!r} is fed but its output reaches nobody: not subscribed to, not the tail of a segment that is used, not returned', w.node, key=f'T8:void:{core.stmt_key(w.node)}')
         # T5: no dangling input - a worker whose output is consumed (or that is handed to extend/use/Trunk) has every input fed
         nconn += connected(ctx, fn, it, R)
         # sharing: a segment of an expanded trunk is subscribed at most once
@@ -239,6 +274,7 @@ def operators(ctx) -> None:
     ctx.floor('C03.train-sites', ntrain, 6)
     ctx.floor('C03.connected-workers', nconn, 12)
     ctx.floor('C03.segment-args', nsub, 12)
+    ctx.floor('C03.used-results', nvoid, 20)
 
 
 def wrap_label_order(ctx) -> None:
